@@ -3,6 +3,7 @@ package elin
 import (
 	"fmt"
 	"go/types"
+	"math/big"
 
 	"golang.org/x/tools/go/ssa"
 )
@@ -13,11 +14,30 @@ type Value interface{ kind() string }
 // Int abstracts an integer or boolean machine word: its value equals the
 // affine form F and lies in R.
 type Int struct {
-	F *Form
+	f *Form // nil: built on demand from the layout
 	R Itv
 
 	layState int8 // 0 unknown, 1 layout cached, 2 not a layout
 	lay      layout
+}
+
+// F returns the affine form of the word.
+func (x *Int) F() *Form {
+	if x.f == nil {
+		x.f = x.lay.form()
+	}
+	return x.f
+}
+
+// conc returns the value of a concrete word.
+func (x *Int) conc() (*big.Int, bool) {
+	if !x.R.IsSingle() {
+		return nil, false // the range of a constant form is a single point
+	}
+	if x.f == nil {
+		return x.R.Lo, true // a layout: its range is exact
+	}
+	return x.f.ConstInt()
 }
 
 // Agg is an array or struct value, cell by cell.
@@ -43,7 +63,7 @@ type Tuple struct{ E []Value }
 
 // Fn is a function value (closure with its bindings).
 type Fn struct {
-	F    *ssa.Function
+	Func *ssa.Function
 	Bind []Value
 }
 
@@ -90,12 +110,12 @@ func (p *Ptr) String() string {
 
 func mkConst(n int64) *Int {
 	f := int64Form(n)
-	return &Int{F: f, R: single(f.c.Num())}
+	return &Int{f: f, R: single(f.c.Num())}
 }
 
 // Concrete returns the value of a concrete (constant) word.
 func (x *Int) Concrete() (int64, bool) {
-	n, ok := x.F.ConstInt()
+	n, ok := x.conc()
 	if !ok || !n.IsInt64() {
 		return 0, false
 	}
